@@ -1,4 +1,4 @@
-(** * Stage B, part 3: the admitted fragment as a boolean, pure compile-side facts for whole
+(** * Stage B, part 3: the accepted fragment as a boolean, pure compile-side facts for whole
     instruction sequences, and the simulation of block / if / else / end / br / br_if. *)
 From Coq Require Import ZArith NArith List Lia Bool FMapPositive.
 From CB Require Import Common.IntN Common.IntNProofs Wasm.Syntax Wasm.Opcodes Wasm.Sem Wasm.Compile Wasm.Machine
@@ -19,7 +19,7 @@ Proof.
   destruct (handle_opcode cx s v1 (v_reachability v) op) as [s1|]; [|reflexivity]. apply IH.
 Qed.
 
-(** ** the admitted constructs, checked while replaying the validator's height computation *)
+(** ** the accepted constructs, checked while replaying the validator's height computation *)
 Definition ctl_ok (nl : Z) (v : vstate) (op : opcode) : bool :=
   match op with
   | OEnd | OElse => true
